@@ -6,7 +6,8 @@ R1: Shutdown.tla (the goroutines RunWithCustomSocket starts stage by stage throu
     stage that returns before the goroutines it started (the code as found, finding 15).
     ForwarderDrain.tla: the end of HttpForwarderHandlerV2.Run (drain loop against waiting merge goroutines), documenting an observation.
     AccountingProp.tla (second monitor over the same runs, "X03"): the server's own counters -- datagrams received, metrics / events parsed,
-    bad lines -- as the backends (or the upstream of a forwarder) are told them equal what was offered once the system has settled.
+    bad lines -- as the backends (or the upstream of a forwarder) are told them equal what was offered once the system has settled;
+    InternalStats.tla is its I-level (report at notify, statser consolidator, dispatch at the next notify, MergeGauge by timestamp, expiry).
 R2: ShutdownSched.tla configurations x schedules.  S2: harness shut (the real statsd.Server over an in-memory socket with recording
     backends that honour their contexts, an instance cache that answers, virtual time).  R3: ShutdownTrace.tla and AccountingTrace.tla.
 Not in MANIFEST.json (the property list is fixed); run with ./check X02 --tier quick|thorough."""
@@ -25,6 +26,11 @@ FD = """SPECIFICATION Spec
 CONSTANTS Slots = %d Flushes = %d MergeSeesDone = %s
 INVARIANTS TypeOK PostsDone
 PROPERTIES NothingLeftBehind
+CHECK_DEADLOCK FALSE
+"""
+IS = """SPECIFICATION Spec
+CONSTANTS MaxOffers = %d MaxTicks = %d Expiry = %d Stamped = %s SettleAfter = %d
+INVARIANTS MonitorQuiet
 CHECK_DEADLOCK FALSE
 """
 SCHED = """SPECIFICATION Spec
@@ -52,6 +58,16 @@ def run(ctx):
     if fd.violated not in ("NothingLeftBehind", "temporal"):
         raise vlib.MachineryError("ForwarderDrain as coded: expected NothingLeftBehind to be refuted, got %s" % fd.violated)
     ctx.tlc_check("ForwarderDrain", ctx.write_cfg("ForwarderDrain.fix.cfg", FD % (2, 3, "TRUE")), label="merge goroutine gives up when the handler is closed", timeout=600)
+    # the accounting monitor's design side: how a running total travels (report at notify, consolidator, dispatch at the next notify, merge
+    # by timestamp, flush, expiry); three quiet flush intervals suffice (the driver waits four), fewer do not; an unstamped gauge with expiry
+    # disabled (the code as found, finding 16) freezes
+    for exp in (0, 5):
+        ctx.tlc_check("InternalStats", ctx.write_cfg("InternalStats.%d.cfg" % exp, IS % (3, 9 if quick else 11, exp, "TRUE", 3)), label="own totals, expiry=%d" % exp, timeout=600)
+    ctx.tlc_check("InternalStats", ctx.write_cfg("InternalStats.u5.cfg", IS % (3, 9, 5, "FALSE", 3)), label="unstamped gauge with expiry (works by expiring every flush)", timeout=600)
+    for name, args in (("unstamped gauge, expiry disabled (the code as found)", (3, 9, 0, "FALSE", 3)), ("settled after two quiet intervals only", (3, 9, 0, "TRUE", 2))):
+        badr = ctx.tlc_check("InternalStats", ctx.write_cfg("InternalStats.dev.cfg", IS % args), label=name + " (must fail)", must_pass=False)
+        if badr.violated != "MonitorQuiet":
+            raise vlib.MachineryError("vacuity: '%s' not refuted" % name)
     named = {}
     plans = [("bfs2", 2, None, None), ("sim10", 10, "num=600", 12)] if quick else [("bfs3", 3, None, None), ("sim10", 10, "num=6000", 12), ("sim16", 16, "num=2000", 18)]
     for label, ml, sim, depth in plans:
